@@ -133,6 +133,12 @@ func asNumber(t iterator, o interface{}) float64 {
 		if err == nil {
 			return v
 		}
+	case bool:
+		// XPath 1.0, 4.4: boolean true is converted to 1, false to 0.
+		if typ {
+			return 1
+		}
+		return 0
 	}
 	return math.NaN()
 }
